@@ -43,10 +43,10 @@ def main():
         for p in others:
             shutil.move(p + ".aside", p)
         # 2. demo fails with the change
-        rc1, out1 = sh("%s sh MUTANT/run_demo.sh > /tmp/demo_out.txt 2>&1; rc=$?; tail -25 /tmp/demo_out.txt; exit $rc" % env, cwd=wt)
+        rc1, out1 = sh("%s sh MUTANT/run_demo.sh > /tmp/demo_out_%s.txt 2>&1; rc=$?; tail -25 /tmp/demo_out_%s.txt; exit $rc" % (env, name, name), cwd=wt)
         # 3. demo passes without
         sh("git apply -R MUTANT/patch.diff", cwd=wt)
-        rc2, out2 = sh("%s sh MUTANT/run_demo.sh > /tmp/demo_out.txt 2>&1; rc=$?; tail -15 /tmp/demo_out.txt; exit $rc" % env, cwd=wt)
+        rc2, out2 = sh("%s sh MUTANT/run_demo.sh > /tmp/demo_out_%s.txt 2>&1; rc=$?; tail -15 /tmp/demo_out_%s.txt; exit $rc" % (env, name, name), cwd=wt)
         sh("git apply MUTANT/patch.diff", cwd=wt)
         meta["confirmed"].update({"suite_passes_with_change": suite_ok, "demo_exit_with_change": rc1, "demo_tail_with_change": out1[-1200:],
                                   "demo_exit_without_change": rc2, "demo_tail_without_change": out2[-600:]})
